@@ -9,7 +9,7 @@
    decided by the bit-exact correspondence and the falsifier. *)
 From Coq Require Import ZArith List String Bool.
 From Hexital Require Import Base.Prelude Base.Num Inst.ZInst Model.Manager Model.Candle Model.Readings Model.Engine
-  Proofs.EngineProofs Proofs.CausalProofs Proofs.AnalysisProofs Proofs.ComposeProofs Proofs.PipelineProofs Proofs.ComposeHA Proofs.CausalMore Proofs.CausalWin Proofs.CompositeProofs Proofs.AtrCompose Proofs.FillCompose Proofs.FillEngine Proofs.FillHA Proofs.FillHAEngine Proofs.DataSlot Proofs.DataInst Proofs.DataThms Model.Analysis.
+  Proofs.EngineProofs Proofs.CausalProofs Proofs.AnalysisProofs Proofs.ComposeProofs Proofs.PipelineProofs Proofs.ComposeHA Proofs.CausalMore Proofs.CausalWin Proofs.CompositeProofs Proofs.AtrCompose Proofs.FillCompose Proofs.FillEngine Proofs.FillHA Proofs.FillHAEngine Proofs.DataSlot Proofs.DataInst Proofs.DataThms Proofs.CompositeData Proofs.ThresCompose Model.Analysis.
 Import ListNotations.
 Local Open Scope Z_scope.
 
@@ -338,4 +338,43 @@ Theorem C01_data_series_append_on_timeframe :
               calculate O I Mst = calculate O I (resample (payload O) (Candle.merge O) tf (xs ++ ys)%list).
 Proof. exact data_append_on_timeframe. Qed.
 Print Assumptions C01_data_series_append_on_timeframe.
+
+(* a composite over such a helper: StandardDeviationThreshold reads the StandardDeviation helper
+   "<name>_stdev", which keeps its running mean and variance in "<name>_stdev_data".  calculate() =
+   the helper's calculate() through the recursive entry point, then the parent's loop; the helper's
+   canonical decoration survives the parent's writes (its values do not depend on the parent's
+   entries) and its new candles behind a decorated prefix are those behind the plain one
+   (Proofs/CompositeData.v, Proofs/ThresCompose.v).  Whenever one calculate() over the whole stream
+   succeeds, every split of the stream into append chunks ends in exactly its result. *)
+Theorem C01_stdevthres_incremental_equals_batch :
+  forall (O : NumOps) (period : Z) (mult : num O) (input name : string) (rnd : Z),
+  1 <= period -> has_dot name = false ->
+  (forall q, candle_attr O q (sdn name ++ "_data")%string = None) ->
+  stable O (Pt O period mult input name rnd) input -> stable O (St O period input name) input ->
+  stable O (dataM O (St O period input name)) input ->
+  forall (chunks : list (list (cd (payload O)))) (r : store O),
+  Forall (Forall (fresh_thres O period mult input name rnd)) chunks ->
+  calculate O (Pt O period mult input name rnd) (List.concat chunks) = Ok r ->
+  engine_chunks O (Pt O period mult input name rnd) [] chunks = Ok r.
+Proof. intros O period mult input name rnd Hp Hn Ha H1 H2 H3. apply thres_incremental_equals_batch; assumption. Qed.
+Print Assumptions C01_stdevthres_incremental_equals_batch.
+
+Definition c01t_mk ts o h l c : cd (payload ZOps) := Build_cd ts (raw_payload ZOps (Build_ohlcv ZOps o h l c 10)).
+Definition c01t_a1 := c01t_mk 60 10 14 8 12. Definition c01t_a2 := c01t_mk 120 12 18 11 16.
+Definition c01t_a3 := c01t_mk 180 16 17 9 10. Definition c01t_a4 := c01t_mk 240 10 13 10 12.
+Definition c01t_mult : num ZOps := 1%Z.
+Definition c01_T : ind ZOps := top ZOps (@K_STDEVTHRES ZOps 2 c01t_mult "close") "ST" 4.
+Definition c01_thres_r : store ZOps :=
+  Eval vm_compute in (match calculate ZOps c01_T [c01t_a1; c01t_a2; c01t_a3; c01t_a4] with Ok r => r | Err _ => [] end).
+Example C01_stdevthres_example :
+  c01_T = Pt ZOps 2 c01t_mult "close" "ST" 4 /\
+  Forall (fresh_thres ZOps 2 c01t_mult "close" "ST" 4) [c01t_a1; c01t_a2; c01t_a3; c01t_a4] /\
+  calculate ZOps c01_T [c01t_a1; c01t_a2; c01t_a3; c01t_a4] = Ok c01_thres_r /\
+  engine_chunks ZOps c01_T [] [[c01t_a1]; [c01t_a2; c01t_a3]; [c01t_a4]] = Ok c01_thres_r /\
+  map (fun c => alist_get "ST" (inds ZOps (p c))) c01_thres_r = [Some (VBool false); Some (VBool false); Some (VBool true); Some (VBool true)].
+Proof.
+  split; [reflexivity|]. split; [repeat constructor|].
+  split; [vm_cast_no_check (@eq_refl (res (store ZOps)) (Ok c01_thres_r))|].
+  split; [vm_cast_no_check (@eq_refl (res (store ZOps)) (Ok c01_thres_r))|reflexivity].
+Qed.
 
